@@ -143,8 +143,23 @@ static std::string run_cpp_session(int fam, int alg, const Bytes &key, Bytes mod
         switch (o.kind) {
         case 0: {
             Buf a(o.ad), m(o.pt), c(o.pt.size() + 16);
-            obj->encrypt(c.p, m.p, m.n, a.p, a.n);
-            if (c.bytes() != oneshot(fam, alg, key, model, o.ad, o.pt)) return at + "packet differs from the one-shot result under nonce " + hex(model);
+            Bytes got;
+            unsigned ov = (unsigned)((o.n >> 3) & 3);       // which overload sends the packet: each one advances the nonce exactly once
+            if (ov == 1 || (ov == 2 && !o.ad.empty())) {
+                ascon::byte_array bc, bm(o.pt.begin(), o.pt.end()), ba(o.ad.begin(), o.ad.end());
+                obj->encrypt(bc, bm, ba);
+                got.assign(bc.begin(), bc.end());
+                at += "(byte_array overload with associated data of " + num(o.ad.size()) + " bytes) ";
+            } else if (ov == 2) {
+                ascon::byte_array bc, bm(o.pt.begin(), o.pt.end());
+                obj->encrypt(bc, bm);
+                got.assign(bc.begin(), bc.end());
+                at += "(byte_array overload without associated data) ";
+            } else {
+                obj->encrypt(c.p, m.p, m.n, a.p, a.n);
+                got = c.bytes();
+            }
+            if (got != oneshot(fam, alg, key, model, o.ad, o.pt)) return at + "packet differs from the one-shot result under nonce " + hex(model);
             ref::nonce_add(model.data(), 1);
             break; }
         case 1: case 2: {
